@@ -157,6 +157,33 @@ func (s *sched) do(op func() error, early bool) error {
 	}
 }
 
+// doAck runs op in its own goroutine and grants deliveries (oldest first) only until op has
+// returned: whatever its writes triggered beyond the acknowledgement stays pending.
+func (s *sched) doAck(op func() error) error {
+	done := make(chan error, 1)
+	go func() { done <- op() }()
+	idle := 0
+	for guard := 0; guard < 200000; guard++ {
+		synctest.Wait()
+		select {
+		case err := <-done:
+			return err
+		default:
+		}
+		if g, _ := s.step(0, "deliver"); g {
+			idle = 0
+			continue
+		}
+		idle++
+		if idle > 3100 {
+			break
+		}
+		time.Sleep(10 * time.Millisecond)
+	}
+	s.stuck = "operation blocked for 31 s of virtual time with nothing deliverable"
+	return fmt.Errorf("%s", s.stuck)
+}
+
 // run advances virtual time by d in 10 ms steps, granting deliveries as they appear.
 func (s *sched) run(d time.Duration) {
 	end := time.Now().Add(d)
